@@ -274,7 +274,45 @@ def check_element_sweep(ctx, case):
     ctx.distinct_case(('sweep', tname, Z))
 
 
-CHECKS = {'string': check_string, 'malformed': check_malformed, 'element_sweep': check_element_sweep}
+def check_empty(ctx, case):
+    """The empty string is the grammar's 'nothing': no atoms, no charge, unknown density - every time,
+    whatever was done with earlier empty formulas (given a density or a name, extended in place)."""
+    import periodictable as pt
+    tname = case.get('table', 'public')
+    T = _s['tables'][tname]
+    ctx.count('cases.' + tname)
+    water = pt.formula(case['other'], table=T)
+    seen = []
+    for step in case['steps']:
+        ctx.evaluated(what='empty')
+        if step == 'plain':
+            f = pt.formula('', table=T)
+        elif step == 'density':
+            f = pt.formula('', density=case['density'], table=T)
+        elif step == 'name':
+            f = pt.formula('', name='air', table=T)
+        elif step == 'extend':
+            f = pt.formula('', table=T)
+            before = (f.atoms, f.density)
+            if before != ({}, None):
+                ctx.violation("formula('') before being extended: atoms %r density %r" % before, step=step)
+            f += water
+            seen.append(f)
+            continue
+        want_density = case['density'] if step == 'density' else None
+        want_name = 'air' if step == 'name' else None
+        if f.atoms != {} or f.charge != 0 or f.density != want_density or f.name != want_name or f.structure != ():
+            ctx.violation("formula('') [%s] after %r: atoms %r charge %r density %r name %r, expected nothing, 0, %r, %r"
+                          % (step, case['steps'][:case['steps'].index(step)], f.atoms, f.charge, f.density, f.name,
+                             want_density, want_name), step=step)
+        if any(f is g for g in seen):
+            ctx.violation("formula('') returned the very object of an earlier call (%s)" % step, step=step)
+        seen.append(f)
+    ctx.distinct_case(('empty', tuple(case['steps'])))
+
+
+CHECKS = {'string': check_string, 'malformed': check_malformed, 'element_sweep': check_element_sweep,
+          'empty': check_empty}
 
 
 # ---------------------------------------------------------------- workload
@@ -363,6 +401,10 @@ def generate(ctx):
         if case.get('safe_text') is None and node.flags:
             continue
         yield 'string', case
+        if j % 150 == 7:
+            steps = [rng.choice(['plain', 'density', 'name', 'extend']) for _ in range(rng.randint(3, 7))] + ['plain']
+            yield 'empty', {'table': tname, 'steps': steps, 'density': round(rng.uniform(0.001, 20), 4),
+                            'other': rng.choice(['H2O', 'N2', 'CaCO3', 'Fe{2+}'])}
         # malformed siblings of the untagged text (unflagged strings only: the base must be valid)
         if not node.flags and rng.random() < 0.6:
             for cls, ms in malformations(bare, rng, tables[tname]):
